@@ -185,8 +185,13 @@ where
     {
         let cdf = fast_quantized_cdf::<Probability, F, PRECISION>(probabilities, normalization)?;
 
+        let mut symbols = symbols.into_iter();
         let mut extended_cdf = Vec::with_capacity(probabilities.len() + 1);
-        extended_cdf.extend(cdf.zip(symbols));
+        extended_cdf.extend(cdf.zip(&mut symbols));
+        if extended_cdf.len() != probabilities.len() || symbols.next().is_some() {
+            // `symbols` and `probabilities` have different lengths.
+            return Err(());
+        }
         let last_symbol = extended_cdf.last().expect("`len` >= 2").1.clone();
         extended_cdf.push((wrapping_pow2(PRECISION), last_symbol));
 
